@@ -17,6 +17,9 @@ pub enum Op {
     Nth(u8),
     Seek(u8),
     Count,
+    /// a new iterator consumed through `Iterator::nth(s)` (what skip / step_by use): it must return the s-th
+    /// item from the reader's position and leave the reader right after it
+    IterSkip(u8),
 }
 
 #[derive(Serialize, Deserialize, Debug, Clone, Hash)]
@@ -139,6 +142,52 @@ impl Model {
     }
 }
 
+impl Model {
+    /// `got`: what `nth(s)` returned.
+    fn skip_nth(&mut self, s: usize, got: &Option<Result<Option<usize>, String>>) -> Result<(), String> {
+        let mut cands: Vec<usize> = self.pos.clone();
+        if !self.exact && !cands.contains(&0) {
+            cands.push(0);
+        }
+        let mut next = Vec::new();
+        for p in cands {
+            match got {
+                None => {
+                    if p + s >= self.n {
+                        next.push(self.n);
+                    }
+                }
+                Some(Ok(Some(r))) => {
+                    if p + s < self.n && *r == p + s {
+                        next.push(p + s + 1);
+                    }
+                }
+                Some(Ok(None)) => {}
+                Some(Err(_)) => {
+                    if !self.exact {
+                        next.push((p + s + 1).min(self.n));
+                    }
+                }
+            }
+        }
+        if next.is_empty() {
+            return Err(format!(
+                "nth({}) on a new iterator returned {:?} but the reader was positioned at {:?}{} of {} records",
+                s,
+                got,
+                self.pos,
+                if self.exact { "" } else { " (or may restart at 0)" },
+                self.n
+            ));
+        }
+        next.sort();
+        next.dedup();
+        self.pos = next;
+        self.exact = false;
+        Ok(())
+    }
+}
+
 fn take_items<I: Iterator<Item = Result<Option<usize>, String>>>(mut it: I, j: u8, n: usize) -> (Vec<Item>, bool) {
     let limit = if j == 255 { n + 3 } else { j as usize };
     let mut out = Vec::new();
@@ -196,6 +245,12 @@ fn drive_shape_reader<T: std::io::Read + std::io::Seek>(mut r: ShapeReader<T>, w
                     fail!("iteration-sequence", "{}: {}", whole(&c.ops, k), m);
                 }
             }
+            Op::IterSkip(s) => {
+                let got = r.iter_shapes().nth(*s as usize).map(|x| x.map(|sh| ident(&sh)).map_err(|e| err_str(&e)));
+                if let Err(m) = model.skip_nth(*s as usize, &got) {
+                    fail!("iteration-sequence", "{}: {}", whole(&c.ops, k), m);
+                }
+            }
         }
     }
     Ok(())
@@ -210,7 +265,7 @@ impl Prop for Histories {
     }
     fn rule() -> &'static str {
         "bounded-exhaustive: every sequence of length <= L (quick 5, thorough 6; complete Reader and index-less reader: one more) over \
-         {iterate j items (j=0,1,2,all), read_nth(i) i in 0..=n, seek(k) k in 0..=n, shape_count} on ShapeReader::with_shx; {iterate j \
+         {iterate j items (j=0,1,2,all), a new iterator consumed through nth(s) (s=0,1 — what skip / step_by use), read_nth(i) i in 0..=n, seek(k) k in 0..=n, shape_count} on ShapeReader::with_shx; {iterate j \
          pairs, seek(k), shape_count} on the complete Reader (rows carry their index); {iterate j} on a reader without index; the ShapeReader and Reader histories also through from_path on real files (one op shorter, records of ~3 KB so that the file spans BufReader's 8 KiB buffer); files with \
          n=3 (thorough also 4) records of pairwise different sizes and of equal sizes. Oracle: reference state machine (read_nth(i) -> \
          record i / None; count constant; iteration after open / successful read_nth / seek(k) yields exactly 0.. / 0.. / k.. then ends; \
@@ -228,7 +283,7 @@ impl Prop for Histories {
         let mut seen_partial = false;
         let mut seen_seek = false;
         for (k, op) in c.ops.iter().enumerate() {
-            if let Op::Iter(_) = op {
+            if matches!(op, Op::Iter(_) | Op::IterSkip(_)) {
                 if seen_partial || seen_seek {
                     ctx.nontrivial();
                 }
@@ -236,6 +291,7 @@ impl Prop for Histories {
             match op {
                 Op::Seek(x) if *x > 0 => seen_seek = true,
                 Op::Iter(j) if *j != 255 && (*j as usize) < n => seen_partial = true,
+                Op::IterSkip(_) => seen_partial = true,
                 _ => {}
             }
             let _ = k;
@@ -282,6 +338,26 @@ impl Prop for Histories {
                                 fail!("pairs-misaligned", "{}: {}", whole(&c.ops, k), m);
                             }
                             if let Err(m) = model.iterate(&items, ended) {
+                                fail!("iteration-sequence", "{}: {}", whole(&c.ops, k), m);
+                            }
+                        }
+                        Op::IterSkip(sk) => {
+                            let got = r.iter_shapes_and_records().nth(*sk as usize).map(|x| match x {
+                                Ok((sh, rec)) => {
+                                    let (si, ri) = (ident(&sh), match rec.get("idx") {
+                                        Some(dbase::FieldValue::Numeric(Some(v))) => Some(*v as usize),
+                                        _ => None,
+                                    });
+                                    if si == ri { Ok(si) } else { Err(format!("MISALIGNED shape {:?} paired with row {:?}", si, ri)) }
+                                }
+                                Err(e) => Err(err_str(&e)),
+                            });
+                            if let Some(Err(m)) = &got {
+                                if m.starts_with("MISALIGNED") {
+                                    fail!("pairs-misaligned", "{}: {}", whole(&c.ops, k), m);
+                                }
+                            }
+                            if let Err(m) = model.skip_nth(*sk as usize, &got) {
                                 fail!("iteration-sequence", "{}: {}", whole(&c.ops, k), m);
                             }
                         }
@@ -332,6 +408,26 @@ impl Prop for Histories {
                                     fail!("pairs-misaligned", "{}: {}", whole(&c.ops, k), m);
                                 }
                                 if let Err(m) = model.iterate(&items, ended) {
+                                    fail!("iteration-sequence", "{}: {}", whole(&c.ops, k), m);
+                                }
+                            }
+                            Op::IterSkip(sk) => {
+                                let got = r.iter_shapes_and_records().nth(*sk as usize).map(|x| match x {
+                                    Ok((sh, rec)) => {
+                                        let (si, ri) = (ident(&sh), match rec.get("idx") {
+                                            Some(dbase::FieldValue::Numeric(Some(v))) => Some(*v as usize),
+                                            _ => None,
+                                        });
+                                        if si == ri { Ok(si) } else { Err(format!("MISALIGNED shape {:?} paired with row {:?}", si, ri)) }
+                                    }
+                                    Err(e) => Err(err_str(&e)),
+                                });
+                                if let Some(Err(m)) = &got {
+                                    if m.starts_with("MISALIGNED") {
+                                        fail!("pairs-misaligned", "{}: {}", whole(&c.ops, k), m);
+                                    }
+                                }
+                                if let Err(m) = model.skip_nth(*sk as usize, &got) {
                                     fail!("iteration-sequence", "{}: {}", whole(&c.ops, k), m);
                                 }
                             }
@@ -405,16 +501,16 @@ impl EnumProp for Histories {
         let len = env.pickn(5, 6);
         let mut blocks = Vec::new();
         for n in ns {
-            let mut a0 = vec![Op::Iter(0), Op::Iter(1), Op::Iter(2), Op::Iter(255), Op::Count];
+            let mut a0 = vec![Op::Iter(0), Op::Iter(1), Op::Iter(2), Op::Iter(255), Op::Count, Op::IterSkip(0), Op::IterSkip(1)];
             for i in 0..=n {
                 a0.push(Op::Nth(i));
                 a0.push(Op::Seek(i));
             }
-            let mut a1 = vec![Op::Iter(0), Op::Iter(1), Op::Iter(2), Op::Iter(255), Op::Count];
+            let mut a1 = vec![Op::Iter(0), Op::Iter(1), Op::Iter(2), Op::Iter(255), Op::Count, Op::IterSkip(1)];
             for i in 0..=n {
                 a1.push(Op::Seek(i));
             }
-            let a2 = vec![Op::Iter(0), Op::Iter(1), Op::Iter(2), Op::Iter(255)];
+            let a2 = vec![Op::Iter(0), Op::Iter(1), Op::Iter(2), Op::Iter(255), Op::IterSkip(1)];
             for equal in [false, true] {
                 for l in 1..=len {
                     blocks.push(Block { n, equal, reader: 0, alphabet: a0.clone(), len: l });
